@@ -1,34 +1,33 @@
-(* C16 — what stays false of the model even with the proposed patches: the two finding classes.
-   Witnesses are the reified real runs of harness/props/C16.py DIRECTED[7] and DIRECTED[8]. *)
+(* C16 - what stays false of the model even with patches C16-1..4: the two finding classes.
+   Witnesses are the reified real runs of harness/props/C16.py DIRECTED[23] and DIRECTED[10] (patched tree). *)
 From Coq Require Import List Bool String.
 From MT Require Import Confine.
 Import ListNotations.
 Open Scope list_scope.
 
-(* kf_shadow: source `from shapes import Circle` at the top and `from other import Circle` inside a function
+(* kf_shadow: the source has `from shapes import Circle` and, later at module level, `from other import Circle`
    (libcst's symbol mapping keeps only the latter); the stub imports `from shapes import Circle`.
-   The source's own top-level import is moved under TYPE_CHECKING: clause 4 and runtime_names_preserved fail. *)
+   The source's own first import is considered new and moved under TYPE_CHECKING: clause 4 fails.
+   (The name is rebound by the later import anyway, so the final run-time binding is unchanged.) *)
 Theorem source_import_moved_refuted :
   exists stub src applied out,
     wf_module src = true /\ embedsb src applied = true /\ confine stub src applied = Some out
     /\ kf_shadow stub src = true
-    /\ embedsb src out = false
-    /\ existsb (String.eqb "Circle") (runtime_bound src) = true
-    /\ existsb (String.eqb "Circle") (runtime_bound out) = false.
+    /\ embedsb src out = false.
 Proof.
   exists [SImp (IFrom "shapes" [("Circle"%string, None)]); SComp "s" []].
-  exists [SImp (IFrom "shapes" [("Circle"%string, None)]); SComp "f" [];
-          SComp "h" [(CLocal, IFrom "other" [("Circle"%string, None)])]].
+  exists [SImp (IFrom "shapes" [("Circle"%string, None)]); SOther "l";
+          SImp (IFrom "other" [("Circle"%string, None)]); SComp "f" []].
   exists [SImp (IFrom "__future__" [("annotations"%string, None)]); SImp (IFrom "shapes" [("Circle"%string, None)]);
-          SImp (IImport [("shapes"%string, None)]); SComp "f" [];
-          SComp "h" [(CLocal, IFrom "other" [("Circle"%string, None)])]].
+          SImp (IImport [("shapes"%string, None)]); SOther "l";
+          SImp (IFrom "other" [("Circle"%string, None)]); SComp "f" []].
   eexists. vm_compute. repeat split; reflexivity.
 Qed.
 Print Assumptions source_import_moved_refuted.
 
-(* kf_apply_extra: the source imports `from shapes import Circle` only under `if typing.TYPE_CHECKING:`; the stub
-   imports the same item, so it is not "newly imported"; libcst's apply step adds it at module level and it stays
-   there: a new run-time import that only annotations need (clause 3 fails). *)
+(* kf_apply_extra: the source binds Circle (`from other import Circle`), the stub needs shapes.Circle; libcst qualifies the
+   annotation as `shapes.Circle` and adds `import shapes` at module level - an item the stub does not have, so it is not
+   moved: a new run-time import that only annotations need (clause 3 fails). *)
 Theorem new_runtime_import_refuted :
   exists stub src applied out,
     wf_module src = true /\ embedsb src applied = true /\ confine stub src applied = Some out
@@ -36,9 +35,9 @@ Theorem new_runtime_import_refuted :
     /\ existsb (fun it => negb (allowed_runtime src it)) (run_items out) = true.
 Proof.
   exists [SImp (IFrom "shapes" [("Circle"%string, None)]); SComp "s" []].
-  exists [SImp (IImport [("typing"%string, None)]); SIfTC [IFrom "shapes" [("Circle"%string, None)]]; SComp "f" []].
-  exists [SImp (IFrom "__future__" [("annotations"%string, None)]); SImp (IImport [("typing"%string, None)]);
-          SImp (IFrom "shapes" [("Circle"%string, None)]); SIfTC [IFrom "shapes" [("Circle"%string, None)]]; SComp "f" []].
+  exists [SImp (IFrom "other" [("Circle"%string, None)]); SComp "f" []].
+  exists [SImp (IFrom "__future__" [("annotations"%string, None)]); SImp (IFrom "other" [("Circle"%string, None)]);
+          SImp (IImport [("shapes"%string, None)]); SComp "f" []].
   eexists. vm_compute. repeat split; reflexivity.
 Qed.
 Print Assumptions new_runtime_import_refuted.
